@@ -183,13 +183,14 @@ def repo_state() -> dict:
 
 
 def write_replay(mod: Any, rs: int, script: dict, cls: str, text: str) -> str:
-    os.makedirs(os.path.join(VERIF, "replays"), exist_ok=True)
+    rdir = os.environ.get("VERIF_REPLAY_DIR", os.path.join(VERIF, "replays"))
+    os.makedirs(rdir, exist_ok=True)
     run, viols = one_run(mod, script)
     for v in viols:
         if v.cls == cls:
             text = v.text
             break
-    path = os.path.join(VERIF, "replays", f"{mod.ID}-{rs}.json")
+    path = os.path.join(rdir, f"{mod.ID}-{rs}.json")
     with open(path, "w") as f:
         json.dump({
             "property": mod.ID, "module": mod.__name__.split(".")[-1], "run_seed": rs, "class": cls, "text": text,
@@ -348,8 +349,9 @@ def run_batch(modname: str, tier: str, batch_seed: int) -> int:
         "wall_s": round(wall, 2),
         "violations": sum(b["count"] for b in new_v.values()),
     }
-    os.makedirs(os.path.join(VERIF, "evidence"), exist_ok=True)
-    with open(os.path.join(VERIF, "evidence", f"{mod.ID}.json"), "w") as f:
+    edir = os.environ.get("VERIF_EVIDENCE_DIR", os.path.join(VERIF, "evidence"))
+    os.makedirs(edir, exist_ok=True)
+    with open(os.path.join(edir, f"{mod.ID}.json"), "w") as f:
         json.dump(ev, f, indent=1, default=repr)
     print(f"[{mod.ID}] runs={agg['runs']} distinct_nontrivial={len(agg['sigs'])} wall={wall:.1f}s "
           f"runs/h={ev['coverage']['runs_per_hour']} sim_s={ev['coverage']['simulated_seconds']} ends={agg['ends']}")
